@@ -55,6 +55,7 @@ def run(tier):
     runs.scripts(sim_scripts, "sim", dict(base, maxw=3, idle_ms=2 * u))
     runs.random("rand", 2 if q else 20, dict(base, futures=400, varycfg=1, chase=3000 if q else 20000, retire=25000 if q else 250000, order=2 if q else 8))
     runs.random("randslow", 1 if q else 8, dict(base, futures=150, varycfg=1, slow=1))
+    runs.panicking("panic", 8 if q else 40)
     if not q:
         # the default idle timeout of the package (30 s): two idle rounds, then zero goroutines
         runs.scripts([[{"op": "call", "d": 1}, {"op": "call", "d": 2}, {"op": "tick", "n": 3}]], "idle30",
